@@ -447,3 +447,18 @@ func (r *Rec) Sub(t *testing.T, name string, f func(t *testing.T)) {
 	t.Run(name, f)
 	r.Commit()
 }
+
+// Current notes the case about to be executed, so that a crash of the whole
+// process (a panic in a goroutine of the code under test) still leaves a replay file.
+func (r *Rec) Current(check string, c any) {
+	path := os.Getenv("VERIF_FRAG")
+	if path == "" {
+		return
+	}
+	raw, err := json.Marshal(c)
+	if err != nil {
+		return
+	}
+	data, _ := json.Marshal(ReplayFile{Property: r.frag.Prop, Check: check, Msg: "process crashed while this case was running", Case: raw})
+	_ = os.WriteFile(path+".cur", data, 0o644)
+}
